@@ -95,9 +95,9 @@ Proof.
   constructor; [intros Hin; apply Hn, in_or_app; left; exact Hin|apply IH, Hr].
 Qed.
 
-Lemma seize_fold_IdxInv e cp t : forall l s s' u,
+Lemma seize_fold_IdxInv e cp t p : forall l s s' u,
   get_cp e t = Some cp ->
-  ofold (fun s1 (o : option cdp) => match o with Some c => seize e s1 cp c | None => Panic end) s l = Ok s' u ->
+  ofold (liq_step e cp p) s l = Ok s' u ->
   IdxInv e s ->
   (forall c, In (Some c) l -> c_type c = t /\ cdps s t (c_id c) = Some c) ->
   NoDup (map (fun o : option cdp => match o with Some c => c_id c | None => O end) l) ->
@@ -105,12 +105,14 @@ Lemma seize_fold_IdxInv e cp t : forall l s s' u,
 Proof.
   induction l as [|o tl IH]; intros s s' u Hcp H HI Hst Hnd; cbn [ofold] in H.
   - inversion H; subst. exact HI.
-  - destruct o as [c|]; [|discriminate].
+  - destruct o as [c|]; [|discriminate]. unfold liq_step in H at 1.
+    cbn [map] in Hnd. apply NoDup_cons_iff in Hnd. destruct Hnd as [Hni Hnt].
+    destruct (confirm_below e cp p c);
+      [|cbv beta iota in H; eapply IH; [exact Hcp|exact H|exact HI|intros c' Hin; apply Hst; right; exact Hin|exact Hnt]].
     destruct (seize e s cp c) as [s1 []| |] eqn:E; try discriminate.
     destruct (Hst c (or_introl eq_refl)) as [Hty Hc].
     pose proof (seize_stores _ _ _ _ _ _ E) as (A & _).
     apply seize_IdxInv in E; [|exact HI|rewrite Hty; exact Hcp|rewrite Hty; exact Hc].
-    cbn [map] in Hnd. apply NoDup_cons_iff in Hnd. destruct Hnd as [Hni Hnt].
     eapply IH; [exact Hcp|exact H|exact E| |exact Hnt].
     intros c' Hin. destruct (Hst c' (or_intror Hin)) as [Hty' Hc']. split; [exact Hty'|].
     rewrite A. unfold upd2. rewrite Hty, Nat.eqb_refl. cbn [andb].
@@ -126,7 +128,7 @@ Proof.
   set (ents := idx_below _ _ _).
   destruct (existsb _ _) eqn:Ex; [discriminate|].
   intros H. destruct HI as (Hk & Hr & Hi). destruct (Hr t cp Hcp) as [Hnd Hin].
-  eapply (seize_fold_IdxInv e cp t); [exact Hcp|exact H|exact (conj Hk (conj Hr Hi))| |].
+  eapply (seize_fold_IdxInv e cp t (price s (cp_liqm cp))); [exact Hcp|exact H|exact (conj Hk (conj Hr Hi))| |].
   - intros c Hc. apply in_map_iff in Hc. destruct Hc as (x & Hx & _).
     unfold get_cdp in Hx. rewrite Hcp in Hx. destruct (Hk _ _ _ Hx) as [-> Hid]. split; [reflexivity|].
     rewrite Hid. exact Hx.
